@@ -268,6 +268,9 @@ func (it *Interp) Eval(e ast.Expr) *sym.E {
 	return sym.Atom("?" + it.Text(e))
 }
 
+// NoteRead records that a struct field path was read.
+func (it *Interp) NoteRead(p string) { it.noteRead(p) }
+
 func (it *Interp) noteRead(p string) {
 	p = strings.TrimLeft(p, "*")
 	if strings.HasPrefix(p, "m.") {
